@@ -378,8 +378,9 @@ impl MutableArchive {
         let file_offset = self.get_archive_end_offset()?;
 
         // Compress the file data if requested
+        let key_pos = (file_offset - self.archive.archive_offset()) as u32;
         let (compressed_data, compressed_size, flags) =
-            self.prepare_file_data(data, &archive_name, &options)?;
+            self.prepare_file_data(data, &archive_name, &options, key_pos)?;
 
         // Write the file data to the archive
         self.file.seek(SeekFrom::Start(file_offset))?;
@@ -1006,6 +1007,7 @@ impl MutableArchive {
         data: &[u8],
         archive_name: &str,
         options: &AddFileOptions,
+        file_pos: u32,
     ) -> Result<(Vec<u8>, usize, u32)> {
         let mut flags = BlockEntry::FLAG_EXISTS;
         let mut output_data = data.to_vec();
@@ -1036,12 +1038,13 @@ impl MutableArchive {
 
         // Encrypt if requested
         if options.encrypt {
+            let base_key = hash_string(archive_name, hash_type::FILE_KEY);
             let key = if options.fix_key {
-                // For FIX_KEY, we need the block position
-                // This is a simplified version - real implementation would adjust by block
-                hash_string(archive_name, hash_type::FILE_KEY)
+                // FIX_KEY: the key is adjusted by the file position and the uncompressed
+                // size, exactly as Archive::read_file derives it
+                base_key.wrapping_add(file_pos) ^ (data.len() as u32)
             } else {
-                hash_string(archive_name, hash_type::FILE_KEY)
+                base_key
             };
 
             // Remember original length before padding (reserved for future use)
